@@ -486,6 +486,31 @@ def _probe_linear(fn, shapes, rng):
             ref = float(p.abs().max()) + 1e-300
             if not float((l / s_ - p).abs().max()) <= 1e-9 * ref:
                 return "homogeneity T(s x) = s T(x) for s = %g (relative deviation %.3g)" % (s_, float((l / s_ - p).abs().max()) / ref)
+    # several input tensors (a pyramid, a set of cotangents): each at its OWN scale, nine orders of magnitude apart - the result is the
+    # sum of the separately scaled contributions (nothing is "negligible" next to something larger)
+    if len(shapes) >= 2:
+        zeros = [torch.zeros(s_) for s_ in shapes]
+        singles = []
+        for k_ in range(len(shapes)):
+            one = [t.clone() for t in zeros]
+            one[k_] = x[k_]
+            singles.append(fn(one))
+        for trial in range(2):
+            sc = [10.0 ** float(rng.integers(-3, 2)) for _ in shapes]
+            sc[int(rng.integers(len(shapes)))] = 10.0 ** float(rng.integers(6, 9))
+            if trial == 1:
+                sc[0] = 10.0 ** 7
+            got = fn([s_ * t for s_, t in zip(sc, x)])
+            for oi, l in enumerate(got):
+                want = sum(s_ * sg[oi] for s_, sg in zip(sc, singles))
+                # every contribution must be present to ITS OWN relative accuracy: remove the largest and compare the remainder
+                kmax = int(np.argmax(sc))
+                rem_got = l - sc[kmax] * singles[kmax][oi]
+                rem_want = want - sc[kmax] * singles[kmax][oi]
+                tol = 1e-9 * float(rem_want.abs().max()) + 1e-12 * sc[kmax] * float(singles[kmax][oi].abs().max()) + 1e-300
+                if not float((rem_got - rem_want).abs().max()) <= tol:
+                    return ("component-wise superposition: with the inputs scaled by %s the result is not the sum of the separately scaled "
+                            "contributions (the smaller ones are off by %.3g, allowed %.3g)" % (["%.0e" % v for v in sc], float((rem_got - rem_want).abs().max()), tol))
     return None
 
 
